@@ -152,7 +152,14 @@ func verifUnreachable(id string) {
 }
 
 // snapshot of a document including the spare slot of every array
+var verifDepth int
+
 func verifSnap(v interface{}) string {
+	verifDepth++
+	defer func() { verifDepth-- }()
+	if verifDepth > 64 {
+		return "<cycle>" // only a modified document can be cyclic
+	}
 	switch v := v.(type) {
 	case []interface{}:
 		parts := []string{}
@@ -232,6 +239,11 @@ func verifDeepEqual(a, b interface{}) bool { return reflect.DeepEqual(a, b) }
 
 // verifRender: canonical text, the same format the engine renders under a model.
 func verifRender(v interface{}) string {
+	verifDepth++
+	defer func() { verifDepth-- }()
+	if verifDepth > 64 {
+		return "<cycle>"
+	}
 	switch v := v.(type) {
 	case nil:
 		return "null"
